@@ -49,6 +49,37 @@ CLAIMED = {
         note="The model of Start/Prop/End is functional; that End() does not alias the batch builder's array is C05's effect "
              "analysis and is exercised here by continuing the batch builder after End(). Defects D1, D2 were repaired (fix: commits).",
         ref="DESIGN.md §6 C16"),
+    "C12": dict(
+        technique="Coq interpreter for the adapter bodies over the regenerated Go AST (all inputs of the fragment) + stub-executor harness",
+        text="The six Query/QueryRow/Exec bodies of qrbpgx and qrbsql are re-read from /repo on every run (coq/Gen/Ast.v) and "
+             "executed by the interpreter of Meta/Adapter.v for both outcomes of rendering: C12_fail_closed_of_check / "
+             "C12_current_tree - when ToSQL reports an error the executor observes no call and the method returns the zero "
+             "result with that error; census: no other function of the adapter packages calls the executor. Tie to behaviour: "
+             "failing queries of every error kind x 2 adapters x 3 methods x 2 construction paths x named/none x validation "
+             "on/off against recording stub executors.",
+        note="The interpreter covers the Go fragment the adapters are written in (tuple assignment from ToSQL, if err != nil, "
+             "return, one executor call); a body outside the fragment makes the obligation fail (reported, with a search for a "
+             "failing input by the stub harness). Trusted: translator (pure AST dump), reading of the fragment's semantics.",
+        ref="DESIGN.md §6 C12"),
+    "C13": dict(
+        technique="Coq interpreter for the adapter bodies over the regenerated Go AST + stub-executor harness",
+        text="C13_forward_once_of_check / C13_current_tree: when rendering succeeds each method performs exactly one executor "
+             "call of the corresponding method with the caller's context, the SQL and the argument slice of ToSQL spread as "
+             "variadic arguments, and returns its results; WithNamedArgs / WithoutValidation forward to the embedded query "
+             "builder and both construction paths store qrb.Build(w) and the executor. Harness: recorded call compared with a "
+             "fresh ToSQL (context identity, sql, args by DeepEqual, result and error pass-through) over the full configuration cube.",
+        note="As C12.",
+        ref="DESIGN.md §6 C13"),
+    "C19": dict(
+        technique="Coq interpreter for the conditional combinators over the regenerated Go AST (whole input space) + law evaluated on the implementation",
+        text="The five ApplyIf/PropIf bodies are re-read from /repo on every run and executed for all four combinations of "
+             "condition and nil-ness of the function: false -> the receiver, no call; true -> exactly the direct application / "
+             "set (C19_law_of_check, C19_current_tree; census: there is no sixth combinator); And/Or = junction of nonNil "
+             "(operands) with nonNil the order-preserving nil filter (template check + C19_nil_skipped / C19_order_kept). "
+             "Harness: both sides of the law rendered for generated receivers and callback functions with a call counter, nil "
+             "functions, nil operands at random positions.",
+        note="Trusted: translator (pure AST dump) and the reading of the small Go fragment in Meta/Cond.v.",
+        ref="DESIGN.md §6 C19"),
     "C14": dict(
         technique="Coq proof (run with validation on = run with validation off when no validation error is added) + correspondence",
         text="C14_neutral / C14_neutral_to_sql: for every value and both pretty settings, a validating rendering without "
